@@ -16,6 +16,16 @@ def _parser_attr(attr, maybe=False):
     return spec
 
 
+def _fw_dependent(attr, signs):
+    """representation invariant of RetractionState: a firmware retraction has no length / feed rate (None), an
+    E-only one has both; the initial record satisfies it, every handler path must preserve it (C09.R4)"""
+    def spec(I, st, o):
+        key = ('fld', o.oid, 'firmwareRetract')
+        num = I.symbol('%s.%s' % (o.oid, attr), signs, kind='init', oid=o.oid, attr=attr, cls='RetractionState')
+        return Choice([({key: frozenset([True])}, NONE), ({key: frozenset([False])}, num)])
+    return spec
+
+
 # (class, attribute) -> kind of the lazily materialised initial value.  Inferred kinds are cross-checked
 # against the assignments found in the class (rules_common.check_fieldspec).
 FIELDSPEC = {
@@ -49,8 +59,8 @@ FIELDSPEC = {
     ('RetractionState', 'recoverExcluded'): 'bool',
     ('RetractionState', 'allowCombine'): 'bool',
     ('RetractionState', 'firmwareRetract'): 'bool',
-    ('RetractionState', 'extrusionAmount'): 'num+',
-    ('RetractionState', 'feedRate'): 'num',
+    ('RetractionState', 'extrusionAmount'): _fw_dependent('extrusionAmount', frozenset([1])),
+    ('RetractionState', 'feedRate'): _fw_dependent('feedRate', frozenset([-1, 0, 1])),
     ('RetractionState', 'originalCommand'): 'str:+',
     ('RectangularRegion', 'x1'): 'num', ('RectangularRegion', 'y1'): 'num',
     ('RectangularRegion', 'x2'): 'num', ('RectangularRegion', 'y2'): 'num',
